@@ -123,6 +123,9 @@ func judge(t *testing.T, name string, sub *lab.SubCheck, cases []Case, res []Res
 		if conc {
 			labels = append(labels, "has-concurrent-step")
 		}
+		for _, n := range r.Reruns {
+			sub.Note(fmt.Sprintf("case %s re-run because the environment canary recorded a stall: %s", c, tail(n, 700)))
+		}
 		if r.Violation != "" {
 			labels = append(labels, "violation")
 			if failed < 0 {
@@ -284,6 +287,7 @@ func assumptions() {
 	lab.Assume("L3 binary lab: the real helios executable built from the current tree, loopback TCP only; the FAULTY/GOOD backends are the harness's raw scripted TCP servers, 'refuse' = accept-then-reset of every new connection plus reset of requests arriving on pooled connections (a closed port is not used, it could be re-bound by another process)")
 	lab.Assume("Helios picks the backend: every step is a burst carrying the fault script on FAULTY and a 200 script on GOOD; under the ip_hash strategies half of each burst uses client addresses observed (warm-up) to map to FAULTY; whether the fault reached its target is measured (class fault-delivered, floor)")
 	lab.Assume("wall-clock limits are the oracle here because the statement is about termination: 12 s per faulted call (normal: <= 2.1 s), 20 s no-progress = wedged, 8 s recovery watchdog (normal: <= 1.1 s); /v1/backends is trusted for active_connections and the healthy flag; fd counts are read from /proc/<pid>/fd with backend_idle 1 s so that pooled connections can close")
+	lab.Assume("environment canary: a violation reported while a 100 ms harness ticker showed a gap > 1 s or GET /v1/health on the admin port took > 1 s (paused VM, frozen process, CPU starvation) is not a verdict; the case is re-run up to twice (class rerun-after-environment-stall, details in notes) and is inconclusive if all three attempts were disturbed")
 	lab.Assume("concurrent schedules are sampled by real parallelism, not enumerated; faults below TCP and TLS faults are not generated")
 }
 
@@ -306,6 +310,7 @@ func reproBodyStall(t testing.TB, observe time.Duration) (string, Result) {
 		return "", Result{Harness: why}
 	}
 	defer w.close()
+	w.canary = startCanary(w.healthURL)
 	if msg := w.warmup(); msg != "" {
 		return "", Result{Harness: msg}
 	}
@@ -319,7 +324,7 @@ func reproBodyStall(t testing.TB, observe time.Duration) (string, Result) {
 		w.good.Forget(id)
 		w.faulty.Forget(id)
 		if hit {
-			res := Result{YAML: w.yaml, Log: w.h.Log()}
+			res := Result{YAML: w.yaml, Log: w.h.Log(), Stalls: w.canary.seen()}
 			if !o.Ended || o.Elapsed > endBound {
 				return fmt.Sprintf("GET answered by the stalling backend: %v (bound %v)", o, endBound), res
 			}
@@ -341,6 +346,13 @@ func TestC03KnownFindings(t *testing.T) {
 		t.Skip("runs in the last shard only")
 	}
 	msg, r := reproBodyStall(t, endBound+time.Second)
+	for attempt := 1; msg != "" && len(r.Stalls) > 0 && r.Harness == ""; attempt++ { // disturbed by an environment stall: no verdict
+		if attempt == 3 {
+			r.Harness = fmt.Sprintf("the environment stalled during each of 3 attempts: %v", r.Stalls)
+			break
+		}
+		msg, r = reproBodyStall(t, endBound+time.Second)
+	}
 	if r.Harness != "" {
 		lab.Problem("%s: %s", name, r.Harness)
 		return
